@@ -125,10 +125,15 @@ def eco : Rel := (g.rf ∪ g.mo ∪ g.fr).tc
 /-- COHERENCE: `hb; eco?` irreflexive -/
 def coherent : Bool := (g.hb.seq g.eco.opt).irreflexive
 
-/-- ATOMICITY: no write intervenes between an RMW and the write it reads from -/
+/-- ATOMICITY: no write intervenes between an RMW and the write it reads from, and that write is `mo`-before the
+RMW.  (RMWs are single events here.  In the two-event presentation of RC11 the second half follows from
+coherence, because the read half is `sb`-before the write half; with one event `rf w u ∧ mo u w` is a cycle in
+`eco` alone, which COHERENCE — `hb; eco?` irreflexive — does not see.  Found by the proof of the enumerator's
+pruning, `Props/OracleRC11.lean`.) -/
 def atomicity : Bool :=
   (List.range g.n).all fun u => !g.isU u ||
-    (List.range g.n).all fun w => !(g.fr.get u w && g.mo.get w u)
+    (List.range g.n).all fun w =>
+      !(g.fr.get u w && g.mo.get w u) && (!g.rf.get w u || g.mo.get w u)
 
 /-- SC: `psc` acyclic -/
 def scAxiom (strong : Bool) : Bool :=
